@@ -310,3 +310,10 @@ def run(ck):
     check_resume(ck, prog)
     check_crc(ck, prog)
     check_det(ck, prog)
+    # a re-used coder must behave like a fresh one ("the same data with the same options always yields identical bytes",
+    # "the same final status"): no session member may keep a value from the previous use on some init paths only
+    from . import reinit
+    ck.rule("C06-INITCONS", "a coder member that the init function (re)initialises on some paths and that coding "
+                            "modifies is initialised on every path returning LZMA_OK")
+    reinit.check_init_consistency(ck, prog, "C06-INITCONS", skip_files=("stream_encoder_mt.c", "stream_decoder_mt.c"))
+    ck.floor("C06-INITCONS", 40)
